@@ -48,6 +48,7 @@ COST = {"mrq": 16, "td7": 10, "sac": 6}
 
 
 def gen_cases(tier, seed):
+    from vf.algos import random_options
     rng = np.random.default_rng(seed + 505)
     k = 2 if tier == "quick" else 40
     cases = []
@@ -61,6 +62,7 @@ def gen_cases(tier, seed):
     for algo in LOOP_ALGOS:
         for i in range(max(1, k // 2)):
             cases.append(dict(kind="loop", algo=algo,
+                              options=random_options(algo, rng) if i % 2 else {},
                               seed=int(rng.integers(1 << 20)),
                               cost=3 * COST.get(algo, 3)))
     return cases
@@ -502,7 +504,8 @@ def run_loop(case):
                update_frequency=2, target_update_frequency=6, tau=0.3,
                policy_delay=2, target_network_delay=2, target_delay=3,
                use_checkpoints=False, logger=True, snap_on_log=True,
-               low=[-1.0, 0.0], high=[1.0, 2.0], lr=3e-2, copy_leaves=False)
+               low=[-1.0, 0.0], high=[1.0, 2.0], lr=3e-2, copy_leaves=False,
+               options=case.get("options") or {})
     run = make_run(algo, cfg)
     tr = run.trace
     mod = importlib.import_module(run.patch_modules[0])
